@@ -243,6 +243,11 @@ def _contained(ctx, rep, cm, f, closure):
                     catches = any(x.endswith("CTParseTimeoutError") or x in ("Exception", "BaseException", "<bare>")
                                   for x in names)
                     reraises = any(isinstance(x, ast.Raise) for b in h.body for x in ast.walk(b))
+                    yields = any(isinstance(x, (ast.Yield, ast.YieldFrom)) for b in h.body for x in ast.walk(b))
+                    if in_body and catches and yields:
+                        rep.violated("contained", "{}::_ctparse::timeout handler yields".format(cm.rel), cm.where(h),
+                                     "the timeout handler adds an element to the stream: what is produced "
+                                     "under a timeout is no longer a prefix of the untimed stream")
                     if in_body and catches and not reraises:
                         ok = True
             cur = getattr(cur, "_parent", None)
